@@ -17,6 +17,8 @@ use kvh::{Args, Driver, Report, Rng};
 use serde_json::{json, Value};
 use unicode_width::UnicodeWidthStr;
 
+include!("c12_parts/brackets.rs");
+
 // ------------------------------------------------------------------------------------------------
 // markers used while generating program text (stripped by `flatten`)
 const M_STMT: char = '\u{1}'; // a statement starts on this line
@@ -2147,6 +2149,10 @@ fn main() {
             println!("=== script:\n{part}\n=== {:#?}", run_real(part));
             println!("parser: {:?}", koto_parser::Parser::parse(part).err().map(|e| (span_s(&e.span), e.error.to_string())));
         }
+        return;
+    }
+    if argv.len() >= 4 && argv[1] == "--survey-brackets" {
+        survey_brackets(argv[2].parse().unwrap(), argv[3].parse().unwrap());
         return;
     }
     if argv.len() >= 3 && argv[1] == "--where" {
